@@ -85,7 +85,8 @@ func (g *gen) name(p string) string {
 
 func (g *gen) tagLine(t *tdecl, ifaces bool) string {
 	var s string
-	if g.perT {
+	if g.perT && !(ifaces && g.r.Intn(2) == 0) {
+		// (with the interfaces sub-tag the plain tag is left out half of the time: a sub-tag alone enables)
 		s += "// +gengo:deepcopy\n"
 	}
 	if ifaces {
